@@ -1,8 +1,10 @@
 //! C05/C06 harness: analyses printed MiniVHDL programs (and the bundled libraries) and reports diagnostics.
 //!
-//! usage: c05 libs <out>
+//! usage: c05 libs <out> [standard]
 //!          analyse /repo/vhdl_libraries (std + ieee as configured there) alone.
-//!        c05 run <bundle> <out> <workdir> [threads] [batch]
+//!        c05 run <bundle> <out> <workdir> [threads] [batch] [standard]
+//!          standard = 1993 | 2008 | 2019: the `standard` key of the project configuration (default: the
+//!          implementation's default)
 //!          bundle (text, produced by the extracted printer via ocaml/c05_run.ml):
 //!              P <pid>                         starts a program
 //!              F <library> <file name> <n>     a file of n lines, followed by exactly n lines of text
@@ -83,11 +85,16 @@ fn base_config() -> Config {
     cfg
 }
 
-fn run_libs(out: &str) {
+fn run_libs(out: &str, standard: Option<String>) {
     let sm = SeverityMap::default();
     let mut msgs = Quiet;
     let r = catch_unwind(AssertUnwindSafe(|| {
-        let mut p = Project::from_config(base_config(), &mut msgs);
+        let mut cfg = base_config();
+        if let Some(st) = &standard {
+            let c2 = Config::from_str(&format!("standard = \"{st}\"\n[libraries]\n"), Path::new("/")).expect("config");
+            cfg.append(&c2, &mut msgs);
+        }
+        let mut p = Project::from_config(cfg, &mut msgs);
         let nfiles = p.files().count();
         (p.analyse(), nfiles)
     }));
@@ -109,12 +116,15 @@ fn run_libs(out: &str) {
     }
 }
 
-fn run_batch(bi: usize, progs: &[Prog], workdir: &str) -> Vec<serde_json::Value> {
+fn run_batch(bi: usize, progs: &[Prog], workdir: &str, standard: &Option<String>) -> Vec<serde_json::Value> {
     let sm = SeverityMap::default();
     let dir = PathBuf::from(workdir).join(format!("b{bi}"));
     let _ = std::fs::remove_dir_all(&dir);
     std::fs::create_dir_all(&dir).unwrap();
-    let mut toml = String::from("[libraries]\n");
+    let mut toml = match standard {
+        Some(st) => format!("standard = \"{st}\"\n[libraries]\n"),
+        None => String::from("[libraries]\n"),
+    };
     // file path -> (program index, lib, file name)
     let mut owner: HashMap<PathBuf, (usize, String, String)> = HashMap::new();
     let mut libs: Vec<(String, Vec<String>)> = vec![];
@@ -174,7 +184,7 @@ fn run_batch(bi: usize, progs: &[Prog], workdir: &str) -> Vec<serde_json::Value>
                 res.push(serde_json::json!({"pid": progs[0].pid, "panic": true, "diags": []}));
             } else {
                 for (pi, p) in progs.iter().enumerate() {
-                    let sub = run_batch(bi * 100000 + pi + 1, std::slice::from_ref(p), workdir);
+                    let sub = run_batch(bi * 100000 + pi + 1, std::slice::from_ref(p), workdir, standard);
                     res.extend(sub);
                 }
             }
@@ -188,13 +198,14 @@ fn main() {
     std::panic::set_hook(Box::new(|_| {}));
     let args: Vec<String> = std::env::args().collect();
     match args.get(1).map(|s| s.as_str()) {
-        Some("libs") => run_libs(&args[2]),
+        Some("libs") => run_libs(&args[2], args.get(3).cloned()),
         Some("run") => {
             let progs = parse_bundle(&args[2]);
             let out = &args[3];
             let workdir = args[4].clone();
             let threads: usize = args.get(5).and_then(|s| s.parse().ok()).unwrap_or(16);
             let batch: usize = args.get(6).and_then(|s| s.parse().ok()).unwrap_or(64);
+            let standard: Option<String> = args.get(7).cloned();
             std::fs::create_dir_all(&workdir).unwrap();
             let batches: Vec<(usize, Vec<Prog>)> =
                 progs.chunks(batch.max(1)).enumerate().map(|(i, c)| (i, c.to_vec())).collect();
@@ -205,11 +216,12 @@ fn main() {
                 let q = queue.clone();
                 let rs = results.clone();
                 let wd = workdir.clone();
+                let st = standard.clone();
                 hs.push(std::thread::Builder::new().stack_size(256 << 20).spawn(move || loop {
                     let item = q.lock().unwrap().pop();
                     match item {
                         Some((bi, ps)) => {
-                            let r = run_batch(bi, &ps, &wd);
+                            let r = run_batch(bi, &ps, &wd, &st);
                             rs.lock().unwrap().push((bi, r));
                         }
                         None => break,
